@@ -9,11 +9,11 @@ use crate::driver::AnyFlow;
 use crate::engine::{guarded, show, Report, Tier, Violation};
 use crate::refmodel::framing::{after, decide, After, Framing};
 
-pub const RULE: &str = "full product, no pruning: request method (9) x status 100..=999 (900) x response version {1.0,1.1} x Content-Length {absent,0,7,18446744073709551615,abc,-1,4294967296,20-character zero-padded 7,2^64} x Transfer-Encoding {absent,chunked,Chunked,CHUNKED,'gzip, chunked','gzip,chunked',gzip,identity,'gzip,' (empty list element),'' (empty value),chunk} = 1 603 800 cells in the plain context (every third status additionally carries empty-valued fields ahead of the framing headers) ; in addition the same product under three contexts that must not influence the decision - response Connection: close, response Connection: keep-alive, and a 'loaded' exchange (HTTP/1.0 request where the method allows, request connection: close, body methods with an Expect handshake refused by this very head, response Connection: close) - 6 415 200 cells in all, x entry points {Flow::try_response+proceed+body_mode, Call::try_response+into_body}; each cell also reads a probe body with trailing bytes to confirm the decided framing is the one applied. distinct = distinct (method, status class, version, CL, TE, decision) cells";
+pub const RULE: &str = "full product, no pruning: request method (9) x status 100..=999 (900) x response version {1.0,1.1} x Content-Length {absent,0,7,18446744073709551615,abc,-1,4294967296,20-character zero-padded 7,2^64,2^64+3,empty value} x Transfer-Encoding {absent,chunked,Chunked,CHUNKED,'gzip, chunked','gzip,chunked','chunked,' 'gzip, chunked, ,' ', chunked' (empty list elements around the coding),gzip,identity,'gzip,' (empty list element),'' (empty value),chunk} = 1 960 200 cells in the plain context (every third status additionally carries empty-valued fields ahead of the framing headers) ; in addition the same product under three contexts that must not influence the decision - response Connection: close, response Connection: keep-alive, and a 'loaded' exchange (HTTP/1.0 request where the method allows, request connection: close, body methods with an Expect handshake refused by this very head, response Connection: close), and 'refused' (every method, body-less ones with send-body-despite-method, announcing a body with Expect: 100-continue that this very head refuses) - about 10 million cells in all, x entry points {Flow::try_response+proceed+body_mode, Call::try_response+into_body}; each cell also reads a probe body with trailing bytes to confirm the decided framing is the one applied. distinct = distinct (method, status class, version, CL, TE, decision) cells";
 
 const METHODS: [&str; 9] = ["GET", "HEAD", "POST", "PUT", "DELETE", "CONNECT", "OPTIONS", "TRACE", "PATCH"];
-const CLS: [Option<&str>; 9] = [None, Some("0"), Some("7"), Some("18446744073709551615"), Some("abc"), Some("-1"), Some("4294967296"), Some("00000000000000000007"), Some("18446744073709551616")];
-const TES: [Option<&str>; 11] = [None, Some("chunked"), Some("Chunked"), Some("CHUNKED"), Some("gzip, chunked"), Some("gzip,chunked"), Some("gzip"), Some("identity"), Some("gzip,"), Some(""), Some("chunk")];
+const CLS: [Option<&str>; 11] = [None, Some("0"), Some("7"), Some("18446744073709551615"), Some("abc"), Some("-1"), Some("4294967296"), Some("00000000000000000007"), Some("18446744073709551616"), Some(""), Some("18446744073709551619")];
+const TES: [Option<&str>; 14] = [None, Some("chunked,"), Some("gzip, chunked, ,"), Some(", chunked"), Some("chunked"), Some("Chunked"), Some("CHUNKED"), Some("gzip, chunked"), Some("gzip,chunked"), Some("gzip"), Some("identity"), Some("gzip,"), Some(""), Some("chunk")];
 
 /// Exchange contexts that must NOT influence the framing decision or the successor state.
 /// plain: GET-like request, no Connection header on the response.
@@ -21,13 +21,13 @@ const TES: [Option<&str>; 11] = [None, Some("chunked"), Some("Chunked"), Some("C
 /// loaded: every request-side close condition holds (HTTP/1.0 request where the method allows it,
 /// `connection: close` on the request, body methods with an Expect handshake that this very head
 /// refuses) and the response carries `Connection: close` as well.
-const CTXS: [&str; 4] = ["plain", "conn-close", "keep-alive", "loaded"];
+const CTXS: [&str; 5] = ["plain", "conn-close", "keep-alive", "loaded", "refused"];
 const CTX_STATUSES: [u16; 24] = [100, 101, 199, 200, 201, 204, 205, 299, 300, 301, 302, 303, 304, 305, 307, 308, 399, 400, 404, 499, 500, 599, 600, 999];
 
 fn head_bytes_ctx(status: u16, v11: bool, cl: Option<&str>, te: Option<&str>, ctx: &str) -> Vec<u8> {
     let mut h = head_bytes(status, v11, cl, te);
     let conn = match ctx {
-        "conn-close" | "loaded" => "Connection: close\r\n\r\n",
+        "conn-close" | "loaded" | "refused" => "Connection: close\r\n\r\n",
         "keep-alive" => "Connection: keep-alive\r\n\r\n",
         _ => return h,
     };
@@ -215,8 +215,8 @@ fn check_cell(method: &str, status: u16, v11: bool, cl: Option<&str>, te: Option
     let want_after = after(status, want);
     let mut fails = Vec::new();
     let r = guarded(|| {
-        let fc = if ctx == "loaded" {
-            match &bases.loaded {
+        let fc = if ctx == "loaded" || ctx == "refused" {
+            match if ctx == "loaded" { &bases.loaded } else { &bases.refused } {
                 Loaded::Flow(f) => flow_cell(f, &head, want),
                 Loaded::Await(a) => {
                     // the Expect handshake sees this head first; a non-100 head refuses and the body is skipped
@@ -315,6 +315,9 @@ struct Bases {
     flow: ureq_proto::client::flow::Flow<(), ureq_proto::client::flow::state::RecvResponse>,
     call: ureq_proto::client::call::Call<ureq_proto::client::call::state::RecvResponse, ()>,
     loaded: Loaded,
+    /// every method (body-less ones with send-body-despite-method) announcing a body with
+    /// Expect: 100-continue; the head under test refuses the handshake and the body is skipped
+    refused: Loaded,
 }
 
 fn bases(m: &str) -> Bases {
@@ -331,7 +334,19 @@ fn bases(m: &str) -> Bases {
     } else {
         Loaded::Flow(super::flows::recv_response_flow_cfg(&cfg).expect("loaded flow"))
     };
-    Bases { flow: recv_response_flow(m), call: recv_response_call(m), loaded }
+    let refused = {
+        let mut c = crate::driver::ReqCfg::new(m, "1.1", "http://a.test/p").orig("content-length", "3").orig("expect", "100-continue");
+        if !crate::refmodel::reqvalid::needs_body(m) {
+            c = c.despite(true);
+        }
+        let mut f = c.build_prepare().expect("prepare").proceed();
+        crate::driver::write_whole_head(&mut f).expect("head");
+        match AnyFlow::SendRequest(f).proceed() {
+            Ok(Some(AnyFlow::Await100(a))) => Loaded::Await(a),
+            _ => panic!("harness: expected Await100"),
+        }
+    };
+    Bases { flow: recv_response_flow(m), call: recv_response_call(m), loaded, refused }
 }
 
 pub fn run(_tier: Tier) -> Report {
@@ -359,6 +374,9 @@ pub fn run(_tier: Tier) -> Report {
                             }
                             if ctx == "loaded" {
                                 rep.guard("cells in the loaded context", true);
+                            }
+                            if ctx == "refused" && crate::refmodel::reqvalid::needs_body(m) {
+                                continue; // for body methods the loaded context already takes this route
                             }
                             let (fails, class) = check_cell(m, *s, v11, cl, te, ctx, &bases);
                             rep.evaluations += 2;
